@@ -465,13 +465,13 @@ func (it *Interp) errorsIs(err, target IfaceV) bool {
 		if _, isOp := err.V.(OpaqueV); isOp {
 			it.abort("errors.Is on opaque error")
 		}
-		if fn := it.L.Prog.LookupMethod(err.T, nil, "Is"); fn != nil && fn.Signature.Params().Len() == 1 {
+		if fn := it.lookupMethodOpt(err.T, "Is"); fn != nil && fn.Signature.Params().Len() == 1 {
 			r := it.callFn(fn, []Value{err.V, target}, nil, 0).(*smt.Term)
 			if it.Branch(r) {
 				return true
 			}
 		}
-		fn := it.L.Prog.LookupMethod(err.T, nil, "Unwrap")
+		fn := it.lookupMethodOpt(err.T, "Unwrap")
 		if fn == nil {
 			return false
 		}
@@ -486,6 +486,16 @@ func (it *Interp) errorsIs(err, target IfaceV) bool {
 	}
 	it.abort("errors.Is: chain too long")
 	return false
+}
+
+// lookupMethodOpt returns the exported method name of t or nil when t has no such method
+// (ssa.Program.LookupMethod panics in that case).
+func (it *Interp) lookupMethodOpt(t types.Type, name string) *ssa.Function {
+	sel := it.L.Prog.MethodSets.MethodSet(t).Lookup(nil, name)
+	if sel == nil {
+		return nil
+	}
+	return it.L.Prog.MethodValue(sel)
 }
 
 func (it *Interp) comparableValue(v Value) bool {
